@@ -6,6 +6,7 @@ EXPL = "explicit-state bounded model checking: exhaustive enumeration of inputs/
 SCHED = "stateless model checking: exhaustive DFS over goroutine schedules (preemption bounded) of the real code under a cooperative scheduler, plus vector-clock race detection"
 CHECKS = {
  "C01": ("exploration", "every CNF of the families T2/S3/S4/L6/M x entry point x learned-clause limit x heuristic choice list (deviation bounded): verdict, model length and model validity against a truth table; termination by step budget", "§4 C01", EXPL),
+ "C17": ("exploration", "every syntax tree with <=4 leaves over ; = -> | & ^ and brace groups rendered with required plus redundant parentheses in three spacing styles, every token string of length <=6 over {a,b,^,&,|,->,=,;,(,)}, and every one-token deletion/insertion of the renderings: a reference recogniser of the documented grammar decides membership and the reading; Parse must agree (truth table of Formula.Eval) or return an error and nil formula; never panic", "§4 C17", EXPL),
  "C02": ("exploration", "every set (size 1-2, plus unit constraints) of cardinality / PB constructor calls over 2-3 variables with weights in [-2..2] and every degree, and decreasing-coefficient constraints under every partial unit assignment, x heuristic choice list: verdict and model against integer arithmetic on the constraints as written", "§4 C02", EXPL),
  "C03": ("exploration", "(constraint set, cost function, entry point) triples: small CNF, cardinality and PB sets x every cost function over <=3-4 distinct variables (either polarity, weights nil / {0..2} / negative through OPB, or none) x {Optimal(nil), Optimal(chan), Minimize} x heuristic choice list (<=1 deviation over the whole optimisation loop): verdict, model validity, reported cost = cost(model) = truth-table minimum, result stream strictly decreasing and ending with the returned result", "§4 C03", EXPL),
  "C04": ("exploration", "(a) every constraint-API instance of <=2 constraints (clause, cardinality with implicit coefficients, PB) and 3 from a reduced alphabet over 3 named variables, hard or soft with weights 1..3, x every permutation of the cost-function order (map-iteration order owned through the verif hook); (b) every WCNF text with <=3 short clauses, all hard/soft splits, weights 1..3, top weights, declared n or n+1, Optimal with/without channel: unsatisfiable iff hard part is; model covers exactly the user's variables; cost = violated soft weight = truth-table minimum", "§4 C04", EXPL),
@@ -14,6 +15,8 @@ CHECKS = {
  "C08": ("exploration", "(problem, certificate, entry point): every sequence of <=2 certificate lines over the clause alphabet (empty clause, comments, blanks, repeated literals) on T2/S3 problems, genuine solver traces verbatim and with one literal dropped/flipped at every position, Unsat(reader) and UnsatChan; UnsatSubset on the C07 inputs: valid => every line implied (truth table); all lines RUP (independent checker) => accepted; problem restored, second check equal; subset is an unsatisfiable sub-multiset / ErrNotUnsat", "§4 C08", EXPL),
  "C09": ("exploration", "all histories over {Solve, AppendClause(c)} with 1 appended constraint from the full alphabet (clauses with repeats/tautologies/fresh variable, NewCardClause, NewPBClause), 2 from a reduced alphabet under every Solve placement, 3 short clauses, on every small base problem, x heuristic choice list (<=1 deviation): every Solve against the truth table of the conjunction so far; Unsat sticky", "§4 C09", EXPL),
  "C10": ("exploration", "every sequence of <=3 rounds of Assume(list)+Solve with every list of <=2 literals (empty, repeated, contradictory) on every small base problem (with/without units, parse-time facts, parse-time Unsat) x heuristic choice list (<=1 deviation): every round against the truth table of base AND that round's assumptions", "§4 C10", EXPL),
+ "C11": ("exploration", "every formula tree of depth <=1 over {a,b,c,true,false, exactly-one groups of 0..6 names} (also under one and two negations), every depth-2 tree over a reduced leaf set, ternary And/Or: bf.Solve returns nil iff the reference truth table is all false, otherwise the returned map satisfies the formula under every completion of omitted names. One genuine defect (exactly-one groups of >4 names at non-positive polarity) is a known finding.", "§4 C11", EXPL),
+ "C12": ("exploration", "the C11 trees with exactly-one groups at positive polarity only: the bytes of bf.Dimacs are read by a reference DIMACS reader (header counts, ranges, name comments) and all models of the exported CNF are enumerated: formula true under an assignment of its names iff some export model agrees on the mapped names", "§4 C12", EXPL),
  "C14": ("exploration", "problems (CNF, pigeonhole as cardinality constraints with one-edit neighbours, cardinality/PB sets, with/without cost function) x {DetectAtMostOne first, not} run with CuttingPlanes on under every heuristic choice list (<=1 deviation incl. forced Luby restarts and learned-PB reductions) and once with it off: every constraint/unit handed out by the cutting-planes learner is implied (truth table, under the cost bound in force), verdict/model/optimum equal to the truth table and to the strategy-off run. Two genuine defects of the learner are recorded as known findings.", "§4 C14", EXPL),
  "C15": ("exploration", "every graph on <=5 vertices as negative binary clauses (all clause orders / repeated edges for small edge sets), with <=2 extra clauses, cliques in every sign pattern, S4 multisets, cardinality/PB problems with two-literal constraints: the Problem after DetectAtMostOne, read structurally, has exactly the input's model set; CountModels agrees", "§4 C15", EXPL),
  "C06": ("exploration", "same space as C01 with certificate generation on: every certificate replayed by an independent RUP checker, every line checked for implication by truth table, differential against the uncertified twin run", "§4 C06", EXPL),
